@@ -46,6 +46,22 @@ fn main() {
         }
         return;
     }
+    if prop == "c20dbg" {
+        for which in 0..2usize {
+            let mut b = shapes::build(&shapes::Shape::threads(3));
+            let o = dump::DumpOpts { skip_unref: true, principal: Some(b.p.threads[which].page as usize + 16), ..Default::default() };
+            b.p.quiesce();
+            if let dump::DumpResult::Ok(bytes) = dump::dump_mem(b.p.pid, &o) {
+                let d = mdv_core::mdparse::Dump::parse(&bytes);
+                println!("principal = page of thread index {which} (tid {}, page {:#x})", b.p.threads[which].tid, b.p.threads[which].page);
+                for t in &d.threads {
+                    let c = d.loc_bytes(&bytes, &t.context).unwrap();
+                    println!("  tid {} ip {:#x} sp {:#x} stack {}", t.tid, mdv_core::mdparse::ctx::u64_at(c, mdv_core::mdparse::ctx::RIP), mdv_core::mdparse::ctx::u64_at(c, mdv_core::mdparse::ctx::RSP), t.stack.size);
+                }
+            }
+        }
+        return;
+    }
     if prop == "trace" {
         // debugging aid: print the intercepted libc call trace of one plain dump of a 3-thread puppet
         let mut b = shapes::build(&shapes::Shape::threads(3));
